@@ -694,3 +694,6 @@ impl GlobalIp for std::net::Ipv6Addr {
         }
     }
 }
+
+#[cfg(libp2p_verif)]
+pub use as_server::verif_filter_valid_addrs;
